@@ -59,4 +59,8 @@ for k in ks:
 subprocess.run(["git", "-C", wt, "checkout", "-q", "--", "."])
 subprocess.run(["git", "-C", wt, "clean", "-fdq"])
 subprocess.run(["git", "-C", "/repo", "worktree", "remove", "--force", wt], capture_output=True)
-json.dump(res, open("/tmp/seed-out/%s/tryseed-%s.json" % (pid, tier), "w"), indent=1)
+outf = "/tmp/seed-out/%s/tryseed-%s.json" % (pid, tier)
+old = []
+if os.path.exists(outf):
+    old = [r for r in json.load(open(outf)) if r["seed"] not in {x["seed"] for x in res}]
+json.dump(sorted(old + res, key=lambda r: r["seed"]), open(outf, "w"), indent=1)
